@@ -33,7 +33,20 @@ def setup(ctx):
     from smartquery import SqParser
     from smartquery.exceptions import ParserError, OpsExecutionLimitExceededError
     ctx.P = SqParser()
+    ctx.PC = SqParser(parse_cache={})
     ctx.PE, ctx.OPS = ParserError, OpsExecutionLimitExceededError
+    from lib import monitors
+    from smartquery import functions
+    ctx.fn_names = sorted(functions.FUNCTIONS)
+    ctx.M1 = monitors.NodeMonitor()
+    ctx.inside = [0, None]
+
+    def on_raise(node, state, exc):
+        if isinstance(exc, ParserError):
+            ctx.inside[0] += 1
+            if ctx.inside[1] is None:
+                ctx.inside[1] = '%s: %s' % (type(node).__name__, str(exc)[:80])
+    ctx.M1.on_raise = on_raise
     ctx.big = list(range(10000))
     ctx.bigd = {str(i): i for i in range(10000)}
 
@@ -71,7 +84,7 @@ LINE_CTX = ['y = @', 'x += @', 'l[0] = @', 'l[@] = 1', 'd["k"] += @', 'del l[@]'
 def names(ctx):
     def hm(fn, n):
         return [fn(i) for i in range(int(n))]
-    return {'l': [1, 2, 3], 'd': {'k': {'q': 1}}, 's': 'abc', 'x': 5, 'e': [], 'f': lambda *a: a[-1] if a else None, 'hm': hm,
+    return {'l': [1, 2, 3], 'ls': ['b', 'a'], 'd': {'k': {'q': 1}}, 's': 'abc', 'x': 5, 'e': [], 'f': lambda *a: a[-1] if a else None, 'hm': hm,
             'big': list(ctx.big), 'bigd': dict(ctx.bigd)}
 
 
@@ -110,6 +123,16 @@ def cases(ctx):
                     yield ('eval', cat, 'map([1, 2], af)', 'y = v\n' + fault)
                     yield ('eval', cat, 'hm(af, 1)', fault + '\n5')
                 n += 1
+    # ---- a language-level failure inside a lambda handed to a builtin (any argument position): if the lambda runs, the failure must surface
+    for name in ctx.fn_names:
+        for pos in range(3):
+            for fault in ('nope', 'nofn(1)', 'd["missing"]', 'pop(e)', 'l[99]'):
+                if n % ctx.nshards == ctx.shard:
+                    args = ['l', 'd', 's', '1', 'ls']
+                    a = [rnd.choice(args) for _ in range(rnd.randint(max(1, pos + 1), 3))]
+                    a[pos] = rnd.choice(['(v => %s)', '((p, q) => %s)', '(v => [v, %s])']) % fault
+                    yield ('lamarg', name, '%s(%s)' % (name, ', '.join(a)))
+                n += 1
     # ---- op budget
     progs = ['1 + 2 * 3 - 4', '[1, 2, 3] | map(v => v * 2) | sum', 'f = n => 1 if n < 1 else n * f(n - 1)\nf(6)',
              'x = 1\nx += 2\nl[0] = x\nd["k"] = l', 'sorted([3, 1, 2], v => -v)', 'hm(v => v + 1, 5)', '{"a": [1, 2][0]}', 'l[0:2][::-1] | len',
@@ -119,6 +142,13 @@ def cases(ctx):
             if n % ctx.nshards == ctx.shard:
                 yield ('ops', p, budget)
             n += 1
+    # ---- op budget on deep / long programs (plain and caching parser): the budget must win over every other resource
+    for shape in ('long-chain', 'deep-bracket', 'deep-call', 'deep-dot', 'deep-not', 'deep-unary', 'deep-index'):
+        for size in (150, 230, 300, 600, 900):
+            for budget in (5, 50, 120):
+                if n % ctx.nshards == ctx.shard:
+                    yield ('deepops', shape, size, budget)
+                n += 1
     # ---- lexical, syntax, reserved: valid programs + one injected fault
     for _ in range(ctx.scale(60, 1500)):
         types = []
@@ -220,7 +250,19 @@ def call(fn, *a, **k):
 def run_case(case, ctx):
     P, PE = ctx.P, ctx.PE
     kind = case[0]
+    if kind == 'lamarg':
+        ctx.inside[:] = [0, None]
+        e = call(P.eval, case[2], names(ctx), None, 10 ** 5)
+        judge(ctx, case, 'eval', case[2], e)
+        ctx.count('lambda_argument_cases')
+        if e is None and ctx.inside[0]:
+            ctx.violation('a language-level failure raised during the evaluation was swallowed: eval returned normally', case,
+                          detail={'src': case[2], 'first_failure_inside': ctx.inside[1], 'failures_inside': ctx.inside[0]})
+        elif e is not None and ctx.inside[0] and not isinstance(e, PE):
+            ctx.count('lambda_argument_failures_surfacing_as_' + type(e).__name__)
+        return
     if kind == 'eval':
+        ctx.inside[:] = [0, None]
         _, cat, src, ast_body = case
         ast_names = None
         if ast_body is not None:
@@ -252,6 +294,14 @@ def run_case(case, ctx):
                 return
         # the unbounded run succeeds (or never ends): this failure is caused by the budget
         judge(ctx, case, 'eval', src, e, ctx.OPS, 'op-budget')
+        ctx.cov('categories', 'op-budget')
+    elif kind == 'deepops':
+        _, shape, size, budget = case
+        src = big_text(shape, size)
+        for P2, which in ((P, 'plain parser'), (ctx.PC, 'caching parser'), (ctx.PC, 'caching parser, cache hit')):
+            e = call(P2.eval, src, names(ctx), None, budget)
+            # the program needs far more than `budget` operations, and the first `budget` of them are harmless
+            judge(ctx, case, 'eval', src[:60] + '... (%s, %d levels, %s)' % (shape, size, which), e, ctx.OPS, 'op-budget')
         ctx.cov('categories', 'op-budget')
     elif kind == 'prog':
         _, types, seed, sub = case
